@@ -29,6 +29,22 @@ def related_pairs(ctx, sess, regs, n):
         if a is None or b is None:
             continue
         pairs.append((a, b))
+        if len(pairs) % 4 == 1:
+            # the same nodes again with the other polarities, in this order in one process: a verdict remembered for a pair of
+            # nodes must not be reused for their complements
+            na, _ = sess.op('not', a)
+            nb, _ = sess.op('not', b)
+            if na is not None and nb is not None:
+                pairs += [(a, nb), (na, b), (na, nb), (a, b)]
+    # fixed sequences of that kind
+    for ta, tb in (("os_name == 'posix' and extra == 'x'", "extra != 'x'"), ("python_version >= '3.8' and (sys_platform == 'linux' or extra == 'y')", "sys_platform != 'linux' and extra != 'y'"),
+                   ("'nt' in os_name and python_full_version < '3.9'", "python_full_version >= '3.9'"), ("os_name == 'a' or extra == 'b'", "os_name != 'a' and extra != 'b'")):
+        a, b = sess.parse(ta)[0], sess.parse(tb)[0]
+        if a is None or b is None:
+            continue
+        nb, _ = sess.op('not', b)
+        na, _ = sess.op('not', a)
+        pairs += [(a, b), (a, nb), (na, b), (na, nb)]
     return pairs
 
 
